@@ -1,11 +1,11 @@
 package main
 
 import (
-	"sort"
 	"fmt"
 	"go/token"
 	"go/types"
 	"os"
+	"sort"
 	"strconv"
 	"strings"
 
